@@ -324,6 +324,21 @@ def inline_unknown(crates, known):
         for b in j["bodies"]:
             by_id[b["id"]] = b
     unknown = {b["id"]: b for b in by_id.values() if b["kind"] in ("Fn", "AssocFn") and norm_name(b["name"]) not in known_fns}
+    # a known function that moved (method <-> free function, another module): same final name, old path gone, exactly one candidate —
+    # it stays a function of its own and answers to its old name
+    present = {norm_name(b["name"]) for b in by_id.values()}
+    missing = [k for k in known_fns if k not in present]
+    aliases = {}
+    for k in missing:
+        last = k.rsplit("::", 1)[-1]
+        cands = [u for u in unknown.values() if norm_name(u["name"]).rsplit("::", 1)[-1] == last and u["crate_hint"] == k.split("::", 1)[0]] if False else \
+                [u for u in unknown.values() if norm_name(u["name"]).rsplit("::", 1)[-1] == last and norm_name(u["name"]).split("::", 1)[0] == k.split("::", 1)[0]]
+        same_last_missing = [m for m in missing if m.rsplit("::", 1)[-1] == last]
+        if len(cands) == 1 and len(same_last_missing) == 1:
+            aliases[k] = cands[0]["id"]
+    for k, uid in aliases.items():
+        unknown.pop(uid, None)
+        by_id[uid]["alias_of"] = k
     if not unknown:
         return {}
 
